@@ -383,15 +383,15 @@ fn site_case(tape: &[u16], j1: MV, j2: MV) -> Case {
         }
         19 => {
             // closures made one after the other from the same expression, capturing 0 and -0 (equal, not identical)
-            defs.push("mk = z => (x => (x + k * 0) / z)".into());
-            defs.push(["f = x => ([0, -0] via mk) via (g => g(x))", "f = x => [mk(0), mk(-0)] via (g => g(x))", "f = x => map([-0, 0, -0], mk) via (g => g(x))"][t.pick(3)].into());
+            defs.push("mk = z => (x => x / z)".into());
+            defs.push(["f = x => (([0, -0] via mk) via (g => g(x)))", "f = x => ([mk(0), mk(-0)] via (g => g(x)))", "f = x => (map([-0, 0, -0], mk) via (g => g(x)))"][t.pick(3)].into());
             expect = Some(if defs.last().unwrap().contains("[-0, 0, -0]") { "[3 / -0, 3 / 0, 3 / -0]".into() } else { "[3 / 0, 3 / -0]".into() });
         }
         20 => {
             // ... and capturing equal strings / lists held in different heap cells
-            defs.push("mk = z => (x => [z, x, k])".into());
-            defs.push("f = x => [\"a\" + \"b\", \"ab\", [1] , [1]] via mk via (g => g(x))".into());
-            expect = Some("[[\"ab\", 3, k], [\"ab\", 3, k], [[1], 3, k], [[1], 3, k]]".into());
+            defs.push("mk = z => (x => [z, x])".into());
+            defs.push("f = x => (([\"a\" + \"b\", \"ab\", [1], [1]] via mk) via (g => g(x)))".into());
+            expect = Some("[[\"ab\", 3], [\"ab\", 3], [[1], 3], [[1], 3]]".into());
         }
         _ => {
             // re-entered through a callback of map, inside a function whose parameter shadows
